@@ -18,9 +18,9 @@ SCOPE = ["distance3d.distance", "distance3d.distance._line", "distance3d.distanc
 _SENTINEL = ("`distance = -inflation - 1.` marks 'origin inside' with a value that is only required to be negative; every public wrapper "
              "clamps it with max(., 0.0), so the inhomogeneous offset never reaches a result")
 EXCEPTIONS = {
-    "distance3d.gjk._gjk_nesterov_accelerated::gjk_nesterov_accelerated|-inflation - 1.0": _SENTINEL,
+    "distance3d.gjk._gjk_nesterov_accelerated::gjk_nesterov_accelerated|-_ - 1.0": _SENTINEL,
     "distance3d.gjk._gjk_nesterov_accelerated_primitives::run_gjk_nesterov_accelerated|-inflation - 1.0": _SENTINEL,
-    "distance3d.gjk._gjk_nesterov_accelerated::gjk_nesterov_accelerated|momentum * ray_dir + (1.0 - momentum) * y":
+    "distance3d.gjk._gjk_nesterov_accelerated::gjk_nesterov_accelerated|_ * _ + (1.0 - _) * _":
         "ray_dir is a unit vector only on the normalize_support_direction path, selected by a loop-invariant flag; the two "
         "representations never meet at run time (path-insensitive join in the loop)",
 }
